@@ -273,6 +273,9 @@ func (sc SimpleColumn) WriteTo(store ReadOnlyFactStore, w io.Writer) error {
 		return ErrTooManyPreds
 	}
 	if sc.Deterministic {
+		// Sort a copy: the slice may be the store's own (SimpleColumnStore
+		// returns its predicate list, whose order mirrors the file layout).
+		preds = append([]ast.PredicateSym(nil), preds...)
 		sort.Slice(preds, func(i, j int) bool {
 			a := preds[i]
 			b := preds[j]
